@@ -288,7 +288,7 @@ def _validate_trace(text, module, max_rejects, timeout):
             results = list(ex.map(_validate_chunk, jobs))
     total_events = sum(r[0] for r in results)
     nruns = sum(r[1] for r in results)
-    rejections = [x for r in results for x in r[2]][: max_rejects * 2]
+    rejections = [x for r in results for x in r[2]]
     return total_events, nruns, rejections, crashed
 
 
